@@ -516,7 +516,15 @@ namespace ip {
 				p.overhead = 40;
 				p.hops = hops;
 				p.seq_nr = m_next_outgoing_seq++;
-				p.drop_fun = std::bind(&tcp::socket::packet_dropped, this, _1);
+				// the packet may outlive this socket (it can be dropped at a
+				// later hop after we were closed, destroyed or moved), so the
+				// notification is routed through the forwarder, which is
+				// detached on close and re-pointed on move
+				p.drop_fun = [fwd = m_forwarder](aux::packet pkt)
+				{
+					auto* s = static_cast<tcp::socket*>(fwd->destination());
+					if (s) s->packet_dropped(std::move(pkt));
+				};
 
 				send_packet(std::move(p));
 				ptr += packet_size;
@@ -756,6 +764,9 @@ namespace ip {
 
 	void tcp::socket::packet_dropped(aux::packet p)
 	{
+		// the connection may be gone by the time a later hop reports the drop
+		if (!m_channel) return;
+
 		int remote = m_channel->remote_idx(m_bound_to);
 		p.hops = m_channel->hops[remote];
 		m_outgoing_packets.push_back(std::move(p));
